@@ -18,7 +18,8 @@ RULE = (
     "For each generated operation (every iterator tool and aggregation with 1-3 suspending sources as "
     "async generator / class / plain-awaitable class and suspending async callables; tee with a lock; "
     "lru_cache with a suspending function; cached_property with a lock type; ExitStack with 1-3 entered "
-    "managers / pushed exits / callbacks; a scoped_iter block using several tools) a cancellation-free "
+    "managers / pushed exits / callbacks; a scoped_iter block using several tools; groupby with partly "
+    "consumed groups) a cancellation-free "
     "run counts the suspension points N; then EVERY i in 1..N is a separate run in which a fresh "
     "Cancel(BaseException) object is thrown into the task at its i-th suspension; the owner then closes "
     "the library iterator it holds. Oracle: that very Cancel object leaves the operation; every source "
@@ -504,6 +505,57 @@ def run_scoped(case, cancel_at):
     return n
 
 
+# -- groupby
+
+
+@st.composite
+def groupby_cases(draw, tier):
+    uids = Uids()
+    items = [uids.fix(x) for x in draw(st.lists(K, min_size=1, max_size=5))]
+    return {"op": "groupby", "items": items, "fl": draw(st.sampled_from(["agen", "aclass", "aplain"])),
+            "susp": draw(st.integers(1, 2)), "key": draw(st.sampled_from([None, "sync", "async"])),
+            "take": draw(st.integers(0, 3))}
+
+
+def run_groupby(case, cancel_at):
+    import asyncstdlib as a
+
+    ctx = Ctx("a")
+    cancel = Cancel("cancel") if cancel_at else None
+    src = make_source(ctx, "s0", mats(case["items"]), {"fl": case["fl"], "susp": case["susp"]}, "a")
+
+    async def akey(item):
+        await ctx.suspend(("key", item.uid))
+        return item.key
+
+    key = {None: None, "sync": (lambda item: item.key), "async": akey}[case["key"]]
+
+    async def task():
+        gb = a.groupby(src.obj, key) if key is not None else a.groupby(src.obj)
+        try:
+            async for _, group in gb:
+                taken = 0
+                async for _ in group:
+                    taken += 1
+                    if taken >= case["take"]:
+                        break
+        finally:
+            await gb.aclose()
+
+    with loop_mode(ctx, "hooks"):
+        outcome = run(ctx, task(), cancel_at, cancel)
+        n = ctx.last_suspensions
+        if cancel_at is None or not ctx.cancel_delivered:
+            close_orphans(ctx)
+            return n
+        _must_propagate("groupby", outcome, cancel, case, cancel_at)
+        if not src.released:
+            raise Violation("C18/groupby/source-leaked-after-cancel", f"cancel_at={cancel_at}/{n}",
+                            case=dict(case, cancel_at=cancel_at))
+        close_orphans(ctx)
+    return n
+
+
 def shards(tier):
     out = [
         Shard(name, check_tool, strategy=tool_cases(name, tier), n=150, nontrivial=lambda c: False,
@@ -512,7 +564,7 @@ def shards(tier):
     ]
     specials = [("op-tee-lock", tee_cases, run_tee), ("op-lru_cache", lru_cases, run_lru),
                 ("op-cached_property", prop_cases, run_prop), ("op-exitstack", stack_cases, run_stack),
-                ("op-scoped_iter", scoped_cases, run_scoped)]
+                ("op-scoped_iter", scoped_cases, run_scoped), ("op-groupby", groupby_cases, run_groupby)]
     for name, strat, runner in specials:
         out.append(Shard(name, (lambda case, runner=runner: _expand(case, runner)), strategy=strat(tier),
                          n=500, nontrivial=lambda c: False, thorough_mult=25))
